@@ -159,15 +159,21 @@ Definition sleepy (d : Z) : bool := 4 <? d.
 Definition fid_dtor (o : nat) : Z := 2 * zn o.
 Definition fid_cb (o : nat) : Z := 2 * zn o + 1.
 
-(* what user code (destructor / callback) calls on the container it belongs to; only while the container
-   is alive (the harness switches re-entry off once ~DelayedDestructor has started) *)
+(* what user code (destructor / callback) calls on the container it belongs to: while the container is alive
+   and also during the body of ~DelayedDestructor (its sweeps), but not once the vector member is being
+   destroyed (cstate 2; the harness detects that phase).  Modes: 1 size(), 2 add(new object), 3 destroyObjects(),
+   4 destroyObjects(150ms), m >= 5: add(new object whose destructor re-enters with mode 2 (m = 5) or m-1):
+   a chain parent -> child -> grandchild ... handed to the same container *)
+Definition child_mode (m : nat) : nat := if Nat.eqb m 5 then 2%nat else pred m.
 Definition reenter (g : glob) (m : nat) : glob * list instr :=
-  match cstate g, m with
-  | O, 1%nat => (g, [ISizeLock])
-  | O, 2%nat => let (g', o) := new_obj g 0 0 in (g', [IAddLock o])
-  | O, 3%nat => (g, [IDoTry])
-  | O, 4%nat => (g, [IDdTry 150])
-  | _, _ => (g, [])
+  if Nat.eqb (cstate g) 2 then (g, []) else
+  match m with
+  | 0%nat => (g, [])
+  | 1%nat => (g, [ISizeLock])
+  | 2%nat => let (g', o) := new_obj g 0 0 in (g', [IAddLock o])
+  | 3%nat => (g, [IDoTry])
+  | 4%nat => (g, [IDdTry 150])
+  | _ => let (g', o) := new_obj g (child_mode m) 0 in (g', [IAddLock o])
   end.
 
 (* after lock.unlock(): the callbacks, then ecall.clear(), then the second try_lock_for *)
